@@ -18,7 +18,37 @@ var (
 func RegisterSchema(typ reflect.Type, s Schema) {
 	schemaRegistryMutex.Lock()
 	defer schemaRegistryMutex.Unlock()
-	schemaRegistry[typ] = s
+	schemaRegistry[typ] = s.clone()
+}
+
+// clone returns a deep copy of s. Schemas stored in and handed out of the
+// registry must not share memory with the caller's copy: otherwise editing a
+// schema returned by SchemaForType silently changes the schema registered for
+// the type.
+func (s Schema) clone() Schema {
+	c := Schema{Type: s.Type}
+	if s.Union != nil {
+		c.Union = make([]Schema, len(s.Union))
+		for i := range s.Union {
+			c.Union[i] = s.Union[i].clone()
+		}
+	}
+	if s.Object != nil {
+		o := *s.Object
+		o.Items = o.Items.clone()
+		o.Values = o.Values.clone()
+		if o.Fields != nil {
+			o.Fields = make([]SchemaRecordField, len(s.Object.Fields))
+			for i, f := range s.Object.Fields {
+				o.Fields[i] = SchemaRecordField{Name: f.Name, Type: f.Type.clone()}
+			}
+		}
+		if o.Symbols != nil {
+			o.Symbols = append(make([]string, 0, len(o.Symbols)), o.Symbols...)
+		}
+		c.Object = &o
+	}
+	return c
 }
 
 // SchemaForType returns a Schema for the given type. It aims to produce a
@@ -39,7 +69,7 @@ func isInSchemaRegistry(typ reflect.Type) (Schema, bool) {
 	schemaRegistryMutex.RLock()
 	defer schemaRegistryMutex.RUnlock()
 	s, ok := schemaRegistry[typ]
-	return s, ok
+	return s.clone(), ok
 }
 
 func schemaForType(typ reflect.Type, seen ...reflect.Type) (Schema, error) {
